@@ -600,11 +600,22 @@ func (w *Writer) WriteCompressed(refs []Reference, objects ...Object) error {
 	}
 
 	sRef := w.Alloc()
+	// If the call fails before anything has been written, the references
+	// stay what they were: no entry may point into an object stream which
+	// does not exist.
+	entered := 0
+	rollback := func() {
+		for _, ref := range refs[:entered] {
+			delete(w.xref, ref.Number())
+		}
+	}
 	for i, ref := range refs {
 		err := w.setXRef(ref, &xRefEntry{InStream: sRef, Pos: int64(i)})
 		if err != nil {
+			rollback()
 			return fmt.Errorf("Writer.WriteCompressed: %w", err)
 		}
+		entered = i + 1
 	}
 
 	// get the offsets
@@ -625,6 +636,7 @@ func (w *Writer) WriteCompressed(refs []Reference, objects ...Object) error {
 			// written separately at the end without buffering.
 			err = Format(body, w.outputOptions, objects[i])
 			if err != nil {
+				rollback()
 				return err
 			}
 			err = body.WriteByte('\n')
